@@ -327,6 +327,8 @@ package carddav
 //@   ensures M2: lvlA(b, r) == 3 ==> (cabCalls == old(cabCalls) + 1 && cabBook != nil && cabBook.Path == r.URL.Path && mutations == old(mutations) + 1 && (err == nil || beErr(err)))
 //@   |   || (cabCalls == old(cabCalls) && mutations == old(mutations) && err != nil && local4xx(err))
 //@   ensures M3: err != nil ==> beErr(err) || local4xx(err)
+//@   -- C13: a body that does not ask for a collection of this kind is refused with 400 and creates nothing
+//@   ensures M4: cabCalls == old(cabCalls) + 1 && !old(bodyEmpty(r)) ==> decodedOk(r, "mkcolReq") && (let m : decoded(r, "mkcolReq") in rtHasV(m.ResourceType, internal.CollectionName) && rtHasV(m.ResourceType, addressBookName))
 //@ func carddav.(*backend).Delete(b, r) (err)
 //@   requires R1: servedAB(b) && validReq(r)
 //@   allocates
